@@ -43,8 +43,10 @@ def gen_script(rng):
         if not release_late:
             actions += release
         for _ in range(rng.choice([0, 1, 1, 2, 3])):
-            api = rng.choice(["threading", "_thread", "_thread_ct"])
+            api = rng.choice(["threading", "_thread", "_thread_ct", "threading_falsy"])
             name = rng.choice(["worker-%d", "ign-%d", "w%d", "ab=ab-%d", "IGN-%d"]) % uid
+            if rng.random() < 0.2:
+                name = rng.choice(["pool", "ign-pool"])      # several threads may carry the same name
             actions.append(["start", uid, api, name])
             fate = rng.choice(["finish", "finish", "leak-later", "leak-end"])
             if fate == "finish":
@@ -103,6 +105,12 @@ def directed_scripts():
                  {"id": 1, "actions": [["start", 3, "threading", "IGN-3"], ["start", 4, "threading", "ign-4"],
                                         ["start", 5, "threading", "ab=cd-5"]]}]
         out.append({"tests": tests, "ignore": ignore})
+    # threads that share a name, and thread objects that are false, left behind by one test
+    out.append({"tests": [{"id": 0, "actions": [["start", 0, "threading", "pool"], ["start", 1, "threading", "pool"],
+                                                  ["start", 2, "threading", "pool"]]},
+                          {"id": 1, "actions": [["start", 3, "threading_falsy", "ign-worker"], ["start", 4, "threading_falsy", "bg"],
+                                                  ["start", 5, "threading", "a"], ["start", 6, "threading", "a"]]}],
+                "ignore": ["ign"]})
     return out
 
 
@@ -117,8 +125,8 @@ def run(ctx):
     infos = []
     for script, (events, out) in zip(scripts, reals):
         # threads started through _thread have no name: the runner sees "Dummy-<ident>"
-        names = {a[1]: (a[3] if a[2] == "threading" else "Dummy") for t in script["tests"] for a in t["actions"]
-                 if a[0] == "start"}
+        names = {a[1]: (a[3] if a[2] in ("threading", "threading_falsy") else "Dummy") for t in script["tests"]
+                 for a in t["actions"] if a[0] == "start"}
         hist = []
         ident_of = {}
         for e in events:
